@@ -78,7 +78,7 @@ def gen_cases(rng, tier):
     mixed = [(a, b) for a in SPECIAL for b in GENERIC] + [(b, a) for a in SPECIAL for b in GENERIC]
     rng.shuffle(pairs)
     rng.shuffle(mixed)
-    reps = 1 if tier == "quick" else 5
+    reps = 1 if tier == "quick" else 4
     absgaps = [1e-6, 1e-3, 0.03, 0.1, 1.0, 10.0, 100.0]
     for rep in range(reps):
         # every ordered kind pair: one constructed at a true distance, one overlapping
@@ -117,7 +117,7 @@ def gen_cases(rng, tier):
             meta.update(stream="mixed_margin", L=nw.scene_scale([s1, s2]))
             cases.append(dict(c1=s1, c2=s2, meta=meta))
     # needle / plate shaped colliders (aspect ratio up to 1e4, still inside D), at a true distance / touching / overlapping
-    for i in range(60 if tier == "quick" else 700):
+    for i in range(60 if tier == "quick" else 500):
         k1, k2 = rng.choice(nw.KINDS), rng.choice(nw.KINDS)
         s1 = nb.aspect_collider(rng, k1)
         s2 = nb.aspect_collider(rng, k2) if rng.random() < 0.6 else nw.gen_collider(rng, k2, "moderate", spread=3.0)
@@ -129,7 +129,7 @@ def gen_cases(rng, tier):
         elif mode == "overlap":
             s2 = nw.translate_spec(s2, nw.center_of(s1) - nw.center_of(s2))
         cases.append(dict(c1=s1, c2=s2, meta=dict(stream="aspect", sub=mode, kinds=[k1, k2])))
-    n_general = 60 if tier == "quick" else 1200
+    n_general = 60 if tier == "quick" else 800
     for _ in range(n_general):
         s1, s2, meta = nw.gen_pair(rng, tier)
         cases.append(dict(c1=s1, c2=s2, meta=meta))
@@ -147,7 +147,7 @@ def nesterov_loop_correspondence(R, cases, tier):
     inside coqc, replay the support pairs gjk_nesterov_accelerated obtained, pass by pass, with and without
     acceleration: directions, number of support evaluations, contact flag, distance and iteration count must
     agree (harness/narrow_corr9.py, harness/impl/narrowbtrace9.py)."""
-    n = 110 if tier == "quick" else 900
+    n = 110 if tier == "quick" else 700
     step = max(1, len(cases) // n)
     sel = cases[::step]
     # every unwrapped primitive pair as well: there the jitted *_primitives variant is run against the model
@@ -260,9 +260,6 @@ def run(tier, seed, replay=None):
             byfn[key] = r
             if "exc" in r and r["fn"] not in ("jolt_full", "jolt_iterations"):
                 bump(f"{key}:EXC:{r['exc']}")
-                if r["exc"] == "ZeroDivisionError" and key == "nesterov_prim_full+acc" and nb.is_FN2(s1, s2) and "F-N2" in known:
-                    R.known_finding("F-N2", known["F-N2"]["what"])
-                    continue
                 R.failure(f"{key} raised {r['exc']}: {r.get('exc_msg', '')}", dict(c1=s1, c2=s2, meta=c["meta"], result=r),
                           site=key)
         A, B = nw.sh_expr(s1), nw.sh_expr(s2)
@@ -284,9 +281,6 @@ def run(tier, seed, replay=None):
             if r is None or "exc" in r:
                 continue
             if not math.isfinite(r["d"]):
-                if key == "nesterov_full+acc" and nb.is_FN2(s1, s2) and "F-N2" in known:
-                    R.known_finding("F-N2", known["F-N2"]["what"])
-                    continue
                 R.failure(f"{key} returned a non-finite distance {r['d']!r}", dict(c1=s1, c2=s2, meta=c["meta"], result=r), site=key)
                 continue
             vals.append(max(r["d"], 0.0))
